@@ -231,7 +231,7 @@ func main() {
 		files := make([]string, n)
 		cmds := make([]*exec.Cmd, n)
 		for i := 0; i < n; i++ {
-			files[i] = fmt.Sprintf("/verif/bin/c06-shard-%d-%d.json", os.Getpid(), i)
+			files[i] = fmt.Sprintf("%s/bin/c06-shard-%d-%d.json", mc.VerifDir, os.Getpid(), i)
 			cmds[i] = exec.Command(self, "shard", strconv.Itoa(i), strconv.Itoa(n), tier, files[i])
 			cmds[i].Stderr = os.Stderr
 			if err := cmds[i].Start(); err != nil {
